@@ -419,6 +419,15 @@ func runStep(p *syntax.Parser, s step) (nodes []syntax.Node, errs string, panick
 	return
 }
 
+// inputs that leave the most state behind when they fail (unclosed constructs of every kind)
+var dirtySrcs = []string{"foo `bar \" ${", "echo `", "a <<E\nb", "$((", "[[ a =~ (", "[[ a =~ a(b", "\"", "'", "${a", "`\\`", "echo \"`a \\\"",
+	"a\\", "a #c", "if", "((a", "$(a `b", "`a \"`b\\`", "\\", "a \\\n", "[[ a =~ ((", "`echo \\`x", "echo \"`", "a <<-E\n\tb", "x=(a", "a | ", "f() {",
+	"case x in a) ", "$(( (1", "${a:-\"", "`a\n# c", "# c", "a; `", "\"$(", "<(a", "let (", "@test 'a' {", "{ a; ", "a &&", "$'", "<<E", "a b\\\nc `"}
+
+// inputs whose parse is sensitive to leftover lexer state (escapes, backquotes, regexps, comments, here-documents)
+var sensitiveSrcs = []string{"echo \\$x \\\\ \\` \\\"", "\"a\\\"b\\$c\"", "[[ a =~ b(c)d ]]\n[[ a =~ ) ]]", "echo `a \\`b\\` c`", "a # c\nb # d\n", "cat <<E\n$x \\$y\nE\nfoo",
+	"echo \"`echo \\\"x\\\"`\"", "a=1 b=(c d) e", "x \\\n y", "if a; then b; fi # c", "$((a[1] + b))", "echo $'a\\nb' \\\\", "f() { a; }; g", "`\\\\`", "echo \\\n`a`"}
+
 func genStep(r *rand.Rand, corpus []string) step {
 	s := step{Entry: hx.Pick(r, hs.Entries), Cfg: hs.Cfg{Lang: hx.Pick(r, hs.Langs), Keep: r.IntN(2) == 0, StopAt: hx.Pick(r, []string{"", "", "$$", "x"}), Recover: r.IntN(3)}}
 	switch r.IntN(7) {
@@ -427,8 +436,8 @@ func genStep(r *rand.Rand, corpus []string) step {
 		s.Src = c[:r.IntN(len(c)+1)]
 	case 1:
 		s.Src = hs.RandomBytes(r)
-	case 2:
-		s.Src = hx.Pick(r, []string{"foo `bar \" ${", "echo `", "a <<E\nb", "$((", "[[ a =~ (", "[[ a =~ a(b", "\"", "'", "${a", "`\\`", "echo \"`a \\\"", "a\\", "a #c", "if", "((a", "$(a `b", "`a \"`b\\`", "\\", "a \\\n", "[[ a =~ ((", "`echo \\`x"})
+	case 2, 4:
+		s.Src = hx.Pick(r, dirtySrcs)
 	case 3:
 		s.Src = hs.Mutate(r, corpus[r.IntN(len(corpus))], corpus)
 	default:
@@ -477,6 +486,10 @@ func reuseCase(id string, r *rand.Rand, corpus []string, src string) []caseObs {
 	// ---- parser
 	test := genStep(r, corpus)
 	test.Src = src
+	if r.IntN(4) == 0 {
+		test.Src = hx.Pick(r, sensitiveSrcs)
+		src = test.Src
+	}
 	test.Break = 0
 	stop := test.Cfg.StopAt
 	o := caseObs{Mode: "reuse-parser", ID: id, Hex: hx.Hex(src), Lang: test.Cfg.Lang.String()}
@@ -742,6 +755,7 @@ func fields(o hx.Opts) {
 	// ---- Parser
 	resetA, configA, entryA := astFacts("Parser", []string{"parser.go", "lexer.go"}, []string{"Parse", "StmtsSeq", "WordsSeq", "Document", "Arithmetic"})
 	for _, fld := range syntax.VerifParserFields() {
+		hs.SetCurrent("fields probe Parser." + fld.Name)
 		row := fieldRow{Struct: "Parser", Name: fld.Name, Type: fld.Type, ResetAssigns: resetA[fld.Name], Config: configA[fld.Name] && !resetA[fld.Name], EntryAssigns: entryA[fld.Name]}
 		for pi, src := range probes {
 			for _, entry := range []string{"Parse", "Arithmetic", "Document", "WordsSeq"} {
@@ -783,6 +797,7 @@ func fields(o hx.Opts) {
 	// ---- Printer
 	resetB, configB, _ := astFacts("Printer", []string{"printer.go"}, nil)
 	for _, fld := range syntax.VerifPrinterFields() {
+		hs.SetCurrent("fields probe Printer." + fld.Name)
 		row := fieldRow{Struct: "Printer", Name: fld.Name, Type: fld.Type, ResetAssigns: resetB[fld.Name], Config: configB[fld.Name] && !resetB[fld.Name]}
 		for pi, src := range probes {
 			f, perr, pp := parseRef(src, hs.Cfg{Lang: hs.Langs[pi%len(hs.Langs)], Keep: true})
@@ -879,6 +894,11 @@ func callBare(p *syntax.Parser, entry, src string) hs.Result { return hs.Call(p,
 func main() {
 	o := hx.ParseArgs()
 	defer hx.Flush()
+	if o.Tier == "thorough" {
+		hs.Guard(40*time.Minute, 3<<30)
+	} else {
+		hs.Guard(8*time.Minute, 3<<30)
+	}
 	switch o.Mode {
 	case "seq", "inter":
 		ins := inputs(o.Seed, o.Tier, o.N)
@@ -889,6 +909,8 @@ func main() {
 				langs = hs.Langs
 			}
 			for _, l := range langs {
+				hs.SetCurrent(o.Mode + " " + l.String() + " " + hx.Hex(in[1]))
+				hx.Flush()
 				cfg := hs.Cfg{Lang: l, Keep: r.IntN(4) > 0}
 				if o.Mode == "seq" {
 					hx.Emit(seqCase(in[0], in[1], cfg))
@@ -905,6 +927,8 @@ func main() {
 		ins := inputs(o.Seed, o.Tier, o.N)
 		r := hx.Rand(o.Seed, 802)
 		for _, in := range ins {
+			hs.SetCurrent("reuse " + hx.Hex(in[1]))
+			hx.Flush()
 			for _, c := range reuseCase(in[0], r, corpus, in[1]) {
 				hx.Emit(c)
 			}
@@ -922,6 +946,7 @@ func main() {
 			if r.IntN(3) > 0 && !strings.HasSuffix(src, "\n") {
 				src += "\n"
 			}
+			hs.SetCurrent("trace " + hx.Hex(src))
 			if t, ok := traceCase(in[0], src, hs.Cfg{Lang: hs.Langs[r.IntN(len(hs.Langs))], Keep: r.IntN(2) == 0}); ok {
 				hx.Emit(t)
 			}
